@@ -15,7 +15,14 @@ package main
 //	gjWS(r)                         0..3 whitespace bytes
 //	gjRespell(r, raw)               a JSON string literal that UNESCAPES to the UTF-8 text raw, spelled with random escapes
 //	gjInvalidStrings                JSON string literals that are ill-formed (lone/ill-ordered surrogates, bad UTF-8, …)
-//	gjMutate(r, b)                  one random byte-level mutation (delete/replace/insert/truncate/duplicate/swap)
+//	gjMutate(r, b)                  one random byte-level mutation (delete/replace/insert/truncate/duplicate/swap/bit flip),
+//	                                or re-targeting of one \uXXXX escape to another code-unit class
+//	gjEscapeUnits                   string-body units: \uXXXX escapes of every UTF-16 code-unit class (high/low surrogate, BMP
+//	                                around the surrogate block, NUL) in lower/upper/mixed hex, and the raw (ill-formed) UTF-8
+//	                                encodings of surrogates ED A0 80 … ED BF BF
+//	gjEscapeBodies(n, f)            f(body) for every ordered n-tuple of gjEscapeUnits (buffer reused)
+//	gjStringContexts(body, f)       f(text) for the literal "body" alone / with a prefix / with a suffix, as a top-level value,
+//	                                array element, object name, member value, first and second value of a stream
 //	gjDeep(kind, depth, leaf)       depth-nested arrays ("a"), objects ("o") or alternating ("m") around leaf
 //	gjWideObject(r, n, nameLen, dupAt, respell)  an object with n distinct names of about nameLen bytes;
 //	                                dupAt ≥ 0 re-inserts name[dupAt] at the end (respelled if respell)
@@ -285,6 +292,82 @@ func gjAppendValue(b []byte, r *rand.Rand, cfg gjCfg, depth int) []byte {
 	}
 }
 
+// gjEscapeUnits are the units the "escape-pair" family is built from: one spelling per UTF-16 code-unit
+// class × hex case, plus the raw three-byte UTF-8 encodings of surrogate code points (always ill-formed).
+var gjEscapeUnits = func() [][]byte {
+	var out [][]byte
+	seen := map[string]bool{}
+	add := func(b []byte) {
+		if !seen[string(b)] {
+			seen[string(b)] = true
+			out = append(out, b)
+		}
+	}
+	// high surrogates, low surrogates, BMP neighbours of the surrogate block and a letter, NUL
+	for _, v := range []string{"d800", "dbff", "dc00", "dfff", "0041", "d7ff", "e000", "ffff", "0000"} {
+		lower := []byte(v)
+		upper := []byte(v)
+		mixed := []byte(v)
+		k := 0
+		for i, c := range lower {
+			if c >= 'a' && c <= 'f' {
+				upper[i] = c - 'a' + 'A'
+				if k%2 == 0 {
+					mixed[i] = c - 'a' + 'A'
+				}
+				k++
+			}
+		}
+		for _, h := range [][]byte{lower, upper, mixed} {
+			add(append([]byte(`\u`), h...))
+		}
+	}
+	// raw UTF-8 encodings of U+D800, U+DBFF (high), U+DC00, U+DFFF (low)
+	for _, raw := range []string{"\xed\xa0\x80", "\xed\xaf\xbf", "\xed\xb0\x80", "\xed\xbf\xbf"} {
+		add([]byte(raw))
+	}
+	return out
+}()
+
+// gjEscapeBodies calls f with the concatenation of every ordered n-tuple of gjEscapeUnits.
+func gjEscapeBodies(n int, f func(body []byte)) {
+	idx := make([]int, n)
+	var buf []byte
+	for {
+		buf = buf[:0]
+		for _, i := range idx {
+			buf = append(buf, gjEscapeUnits[i]...)
+		}
+		f(buf)
+		i := n - 1
+		for ; i >= 0; i-- {
+			idx[i]++
+			if idx[i] < len(gjEscapeUnits) {
+				break
+			}
+			idx[i] = 0
+		}
+		if i < 0 {
+			return
+		}
+	}
+}
+
+// gjStringContexts calls f with texts that place the string body in every syntactic position:
+// alone / with a prefix / with a suffix, as top-level value, array element, object name, member value,
+// and as first and second value of a stream.
+func gjStringContexts(body []byte, f func(text []byte)) {
+	var lit, t []byte
+	for _, affix := range [][2]string{{"", ""}, {"x", ""}, {"", "y"}} {
+		lit = append(append(append(append(lit[:0], '"'), affix[0]...), body...), affix[1]...)
+		lit = append(lit, '"')
+		for _, ctx := range [][2]string{{"", ""}, {"[", "]"}, {"{", ":0}"}, {`{"a":`, "}"}, {"", " 1"}, {"null ", ""}} {
+			t = append(append(append(t[:0], ctx[0]...), lit...), ctx[1]...)
+			f(t)
+		}
+	}
+}
+
 // gjMutate applies one random byte-level mutation.
 func gjMutate(r *rand.Rand, in []byte) []byte {
 	b := append([]byte(nil), in...)
@@ -292,7 +375,22 @@ func gjMutate(r *rand.Rand, in []byte) []byte {
 		return []byte{gjAlphabet[r.IntN(len(gjAlphabet))]}
 	}
 	i := r.IntN(len(b))
-	switch r.IntN(7) {
+	switch r.IntN(8) {
+	case 7: // re-target one \uXXXX escape to another code-unit class (falls back to a bit flip)
+		var at []int
+		for j := 0; j+6 <= len(b); j++ {
+			if b[j] == '\\' && b[j+1] == 'u' {
+				at = append(at, j)
+			}
+		}
+		if len(at) > 0 {
+			j := at[r.IntN(len(at))]
+			u := gjEscapeUnits[r.IntN(len(gjEscapeUnits)-4)] // an escape, not a raw unit
+			copy(b[j:j+6], u)
+			return b
+		}
+		b[i] ^= 1 << r.IntN(8)
+		return b
 	case 0: // delete
 		return append(b[:i], b[i+1:]...)
 	case 1: // replace by a critical byte
